@@ -157,6 +157,9 @@ Proof.
   - apply Nat.ltb_ge in E. apply nth_error_None in E. rewrite E. reflexivity.
 Qed.
 
+Lemma bad_window_false {T} w (xs : list T) : 1 <= w -> bad_window w xs = false.
+Proof. intros Hw. unfold bad_window. replace (w =? 0) with false by (symmetry; apply Nat.eqb_neq; lia). reflexivity. Qed.
+
 (* ---- entry points: remove/add form --------------------------------- *)
 Section EntryLemmas.
   Context {T St O : Type}.
@@ -167,7 +170,8 @@ Section EntryLemmas.
   Lemma rolling_apply_to_eq w (f : St -> option T * T -> St * O) s0 xs :
     1 <= w -> rolling_apply_to w f s0 xs = Done (run f s0 (args_to w xs)).
   Proof.
-    intros Hw. unfold rolling_apply_to. rewrite calls_to_spec by exact Hw.
+    intros Hw. unfold rolling_apply_to. rewrite bad_window_false by exact Hw.
+    rewrite calls_to_spec by exact Hw.
     rewrite (mapi_slot_combine (fun i v => (removed_to w xs i, v))).
     fold (args_to w xs). set (A := args_to w xs).
     replace (repeat None (length xs)) with (repeat (@None O) (length A))
@@ -179,8 +183,7 @@ Section EntryLemmas.
     1 <= w -> rolling_apply_default w f s0 xs
               = Done (run f s0 (mapi (fun i v => (removed w xs i, v)) xs)).
   Proof.
-    intros Hw. unfold rolling_apply_default.
-    replace (w =? 0) with false by (symmetry; apply Nat.eqb_neq; lia).
+    intros Hw. unfold rolling_apply_default. rewrite bad_window_false by exact Hw.
     rewrite args_iter_mapi by exact Hw. reflexivity.
   Qed.
 End EntryLemmas.
@@ -246,7 +249,8 @@ Section IdxLemmas.
   Lemma rolling_apply_idx_to_eq w (f : St -> option nat * nat * T -> St * O) s0 xs :
     1 <= w -> rolling_apply_idx_to w f s0 xs = Done (run f s0 (args_to_idx w xs)).
   Proof.
-    intros Hw. unfold rolling_apply_idx_to. rewrite calls_to_idx_spec by exact Hw.
+    intros Hw. unfold rolling_apply_idx_to. rewrite bad_window_false by exact Hw.
+    rewrite calls_to_idx_spec by exact Hw.
     rewrite (mapi_slot_combine (fun i v => (start_of (Nat.min w (length xs)) i, i, v))).
     fold (args_to_idx w xs). set (A := args_to_idx w xs).
     replace (repeat None (length xs)) with (repeat (@None O) (length A))
@@ -258,8 +262,7 @@ Section IdxLemmas.
     1 <= w -> rolling_apply_idx_default w f s0 xs
               = Done (run f s0 (mapi (fun i v => (start_of w i, i, v)) xs)).
   Proof.
-    intros Hw. unfold rolling_apply_idx_default.
-    replace (w =? 0) with false by (symmetry; apply Nat.eqb_neq; lia).
+    intros Hw. unfold rolling_apply_idx_default. rewrite bad_window_false by exact Hw.
     rewrite args_iter_idx_mapi by exact Hw. reflexivity.
   Qed.
 End IdxLemmas.
@@ -314,7 +317,8 @@ Section SliceLemmas.
   Lemma rolling_custom_to_eq w (f : St -> list T -> St * O) s0 xs :
     1 <= w -> rolling_custom_to w f s0 xs = Done (run f s0 (windows w xs)).
   Proof.
-    intros Hw. unfold rolling_custom_to. rewrite slices_to_spec by exact Hw. rewrite map_map.
+    intros Hw. unfold rolling_custom_to. rewrite bad_window_false by exact Hw.
+    rewrite slices_to_spec by exact Hw. rewrite map_map.
     replace (map (fun x => let '(slot, (st, e)) := (x, (wstart w x, S x)) in (slot, seg st e xs))
                  (seq 0 (length xs)))
       with (combine (seq 0 (length (windows w xs))) (windows w xs)).
